@@ -33,7 +33,10 @@ def run_one(m, repo='/repo'):
         env = dict(os.environ, VERIF_REPO=tmp, VERIF_EVIDENCE_DIR=os.path.join(tmp, 'evidence'))
         man = json.load(open(os.path.join(VERIF, 'MANIFEST.json')))
         res = {}
+        only = [x for x in os.environ.get('VERIF_NEUTRAL_PROPS', '').split(',') if x]
         for c in man['checks']:
+            if only and c['property_id'] not in only:
+                continue
             r = subprocess.run([sys.executable, os.path.join(VERIF, 'check'), c['property_id'], '--tier', 'quick'], env=env, stdout=subprocess.PIPE, stderr=subprocess.STDOUT, text=True)
             if r.returncode != 0:
                 res[c['property_id']] = (r.returncode, [l for l in r.stdout.splitlines() if l.startswith(('  instance', 'ANALYSIS-BROKEN'))][:3])
